@@ -56,6 +56,7 @@ class AccfgMachine(Interp):
         self.token_n = 0
         self.last_token: dict[str, object] = {}
         self.known_accs: set[str] = set()
+        self.log_writes = False
         self.loops_done = 0  # loops that completed >=1 iteration so far
         self.loop_depth = 0
         self.hooks = []  # objects with optional on_state_defined(machine, value), on_setup(...), on_launch(...)
@@ -108,6 +109,8 @@ class AccfgMachine(Interp):
         r = self.regs.setdefault(acc, {})
         for name, val in zip(op.param_names.data, op.values):
             r[name.data] = self.get(val)
+            if self.log_writes:
+                self.events.append(("W", acc, name.data, r[name.data], val.type.name == "index"))
         self.token_n += 1
         tok = ("tok", acc, self.token_n)
         self.last_token[acc] = tok
